@@ -18,6 +18,32 @@ def merge(acc, val):
 def xxh64(data, seed=0):
     data = bytes(data)
     n = len(data)
+    if n > 4096 and seed == 0:
+        # the pure-Python loop manages ~1 MB/s: big inputs go through the harness's own XXH64 (harness/src/xxh.rs,
+        # also independent of the crate under test); the two are cross-checked on every call below 64 KiB
+        v = _via_harness(data)
+        if v is not None:
+            if n <= 65536:
+                assert v == _xxh64_py(data, 0), 'XXH64 implementations disagree'
+            return v
+    return _xxh64_py(data, seed)
+
+
+def _via_harness(data):
+    import subprocess, os
+    exe = os.path.join(os.path.dirname(os.path.dirname(os.path.abspath(__file__))), '_build', 'cargo', 'release', 'zh')
+    if not os.path.exists(exe):
+        return None
+    try:
+        p = subprocess.run([exe, 'xxh'], input=(data.hex() + '\n').encode(), stdout=subprocess.PIPE, timeout=120)
+        return int(p.stdout.decode().strip())
+    except Exception:
+        return None
+
+
+def _xxh64_py(data, seed=0):
+    data = bytes(data)
+    n = len(data)
     p = 0
     if n >= 32:
         v1, v2, v3, v4 = (seed + P1 + P2) & M, (seed + P2) & M, seed, (seed - P1) & M
